@@ -43,6 +43,10 @@ GroupLayout(mand, opt) ==
   [mandatory |-> SortByRank({mand[k] : k \in DOMAIN mand}),
    optional  |-> SortByRank({opt[k].key : k \in DOMAIN opt}),
    tail      |-> <<"container">>]
+(* cast!(group impl S) for a set S of optional traits yields the concrete form <Group>With<S>: the same fields in the    *)
+(* same places (the requested tables no longer optional) - its bit pattern is the group's, for EVERY subset S, adjacent  *)
+(* in name order or not (as_ref!/as_mut! and upcast() reinterpret one form as the other)                                *)
+CastSameBits(mand, opt, S) == GroupLayout(mand, opt)
 ContainerLayout == <<"instance", "context">>   \* followed by one ret_tmp_<trait> field per trait
 
 (* the container of a single-trait object in machine words, counted from the start of the object (word 0 is the  *)
